@@ -109,6 +109,21 @@ def d4_suspender_request(ctx, repo):
         ok = w1 is None and w2 is None and w3 is None
     ctx.ob("C11.D4-suspender-request", cname(f, None, "requested once per trip, only when the condition holds and the engine is running"), ok,
            "" if ok else "a suspension can be requested without the suspend condition / twice for one trip / while not running", nontrivial=True, where=where(f, f.node))
+    # the per-trip latch: _ev is None exactly when no suspension of this suspender is pending.  It must be cleared in the
+    # same (locked) call that schedules the release, otherwise a new trip during the settle time is not suspended at all.
+    se = repo.func(SU, "SuspenderBase.__set_event")
+    top = [s for s in se.node.body if isinstance(s, ast.Assign) and A.chain(s.targets[0]) == "self._ev" and isinstance(s.value, ast.Constant) and s.value.value is None]
+    ctx.ob("C11.D4-trip-latch", cname(se, None, "self._ev = None unconditionally, in the call that schedules the release"), bool(top),
+           "" if top else "the latch is not cleared synchronously: a signal that trips again before the delayed release is not suspended "
+           "and the pending release lets the plan continue while the condition is bad", nontrivial=True, where=where(se, se.node))
+    for f2 in repo.funcs_in(SU):
+        for s2 in A.walk_stmts(f2.node.body):
+            for t in A.targets_of(s2):
+                if A.chain(t) == "self._ev":
+                    ok2 = f2.qualname in ("SuspenderBase.__init__", "SuspenderBase.__set_event", "SuspenderBase.__make_event.really_make_the_event")
+                    ctx.ob("C11.D4-trip-latch", cname(f2, s2), ok2, "" if ok2 else "the latch is written from a deferred callback / another method", where=where(f2, s2))
+    ok = any(A.norm(s2) == "assert self._lock.locked()" for s2 in se.node.body)
+    ctx.ob("C11.D4-trip-latch", cname(se, None, "runs under the suspender's lock"), ok, "" if ok else "lock assertion removed", where=where(se, se.node))
     rs = repo.func(MOD, f"{CLS}.request_suspend")
     ok = any("self.loop.create_task" in A.norm(s) and "_request_suspend(pre_plan, post_plan, justification)" in A.norm(s) for s in rs.node.body)
     ctx.ob("C11.D4-suspender-request", cname(rs, None, "the request coroutine receives the same three arguments"), ok, "" if ok else "arguments dropped", where=where(rs, rs.node))
